@@ -294,7 +294,7 @@ def cases(rng, tier):
         yield c
     # argument refusals (hypothesis audit): positive penalties, max_number < 1 and >= 2**31, penalties beyond a C int
     pool_g = [[1], [5], [0], [-1], [-3], [1, -1], [-1, 1], [2, 2], [0, 0], [-2, -1], [-2**31], [-2**31 - 1],
-              [-2**31 - 1, -1], [-1, -2**40], [-2**31, -2**31]]
+              [-2**31 - 1, -1], [-1, -2**40], [-2**31, -1]]   # (-2**31, -2**31) makes neg_inf itself overflow: NoOverflow region
     pool_m = [1, 2, 1000, 0, -1, -5, 2**31 - 1, 2**31, 2**31 + 7, 2**40, 2**63]
     for _ in range(4 if tier == "quick" else 40):
         calls = [[rng.choice(pool_g), rng.choice(pool_m)] for _ in range(6)]
@@ -950,7 +950,7 @@ def _oracle_args(c):
                 v.append(("C08/max_number/at-least-2**31/OverflowError", f"{desc}: {exc} (all max_number >= 1 are in the property)"))
             elif exc is not None:
                 v.append(("C08/max_number/large-refused-" + type(exc).__name__, f"{desc}: {exc!r}"))
-        elif exc is not None:
+        elif exc is not None and all(x > -2**30 for x in gap):
             v.append(("C08/refused/valid-arguments-" + type(exc).__name__, f"{desc}: valid arguments refused: {exc!r}"))
         if exc is None and all(-1000 < x <= 0 for x in gap) and mx >= 1:
             want = brute_opt("g", a, b, Mx, gap)
